@@ -49,7 +49,13 @@ def cases(rng, budget, widx, nworkers, tier):
         a = gen.rand_obj(rng, ka, small=sm())
         r = rng.random()
         b = gen.targeted(rng, kb, a) if r < 0.8 else gen.rand_obj(rng, kb, small=sm())
-        if ka in ("PG", "PH") and kb in ("PG", "PH") and rng.random() < 0.25:
+        if ka == "PH" and kb == "PH" and rng.random() < 0.3:
+            inner = gen.feature_points(a).get("interior", [])
+            if inner:
+                b2 = gen._scale_about(a, rng.choice(inner), rng.choice((F(1, 4), F(1, 2), F(1, 8))))
+                if gen.ok_coords(b2, 64):
+                    a, b = (a, b2) if rng.random() < 0.7 else (b2, a)      # strictly nested, off-centre, no surface contact
+        elif ka in ("PG", "PH") and kb in ("PG", "PH") and rng.random() < 0.25:
             (a, b), _lab = gen.body_pair(rng, ka, kb, small=True)      # labelled relative positions incl. strictly nested / small integer boxes
         K.reset()
         try:
@@ -170,7 +176,7 @@ def judge(case):
             _diag["wrong_nesting_left"] += 1
         elif wrong == "right":
             _diag["wrong_nesting_right"] += 1
-        mu.fail("assoc:%s:nestings-differ(%s wrong)" % (key, wrong),
+        mu.fail("assoc:%s:nestings-differ(%s-wrong)" % (key, wrong),
                 "(a∩b)∩c and a∩(b∩c) denote different sets (%s); exact a∩b∩c = %s; the %s nesting disagrees with it" % (
                     why, C.show_short(left, 160), wrong))
     return mu.result(outcome=C.show_short(left, 100))
